@@ -124,6 +124,17 @@ func analyse(it progs.OwnLoopItem, cr rcmon.CallResult) (fails []failure, steady
 	return
 }
 
+// balanced: the largest program size <= maxPer that splits n cases into a multiple of the worker
+// count (whole rounds, no straggler round).
+func balanced(n, maxPer int) int {
+	w := mc.NWorkers()
+	rounds := (n + w*maxPer - 1) / (w * maxPer)
+	if rounds < 1 {
+		rounds = 1
+	}
+	return max(1, (n+w*rounds-1)/(w*rounds))
+}
+
 func tail(s string, n int) string {
 	if len(s) > n {
 		return s[len(s)-n:]
@@ -137,18 +148,25 @@ func main() {
 		return
 	}
 	r := mc.Start("C12")
-	maxLen := mc.Pick(r, 2, 3)
-	r.Rule("every loop body of <= max_len ownership operations (21 operations) that the reference heap-graph model marks cycle-free, in 3 loop shapes, run for N in {1,2,3,10,100} on the real compiled program with instrumented runtime; (live blocks, live bytes, heap bump pointer) recorded by the host at the end of every iteration; distinct = distinct (shape, steady-state census) pairs")
+	r.Rule("every loop body of <= 2 ownership operations over the full alphabet (44 operations) and <= max_body_len_core_alphabet over the 21 core operations that the reference heap-graph model marks cycle-free, in up to 3 loop shapes, run for N in {1,2,3,10,100} on the real compiled program with instrumented runtime; (live blocks, live bytes, heap bump pointer) recorded by the host at the end of every iteration; distinct = distinct (shape, steady-state census) pairs")
 	r.Bound("ops", len(progs.OwnOps))
-	r.Bound("max_body_len", maxLen)
+	r.Bound("ops_core", progs.OwnCoreOps)
+	r.Bound("max_body_len_full_alphabet", 2)
+	r.Bound("max_body_len_core_alphabet", mc.Pick(r, 2, 3))
+	r.Bound("shapes_for_extension_bodies", mc.Pick(r, "func", "inner,func,outer"))
 	r.Bound("iteration_counts", progs.OwnLoopNs)
 	r.Bound("shapes", progs.OwnLoopShapes)
 	r.Assume("all data a body allocates is unreachable at the end of the iteration by construction: the variables are scoped to the iteration (shapes inner, func) or overwritten with zero values at the end of the body (shape outer)")
 	r.Assume("cycle-freeness is decided by the reference heap-graph model over zzT.next edges (only nodes can be referenced from heap objects reachable from nodes); bodies the model marks cyclic are outside the property")
 	r.Assume("one-time allocations (lazily initialised runtime state) are absorbed by comparing with iteration 2, not iteration 0")
 
+	// bodies: every body of <= fullLen operations over the full alphabet plus every body of
+	// <= coreLen operations over the core alphabet. Core bodies run in all three shapes; bodies
+	// that use an extension operation run in all three shapes in the thorough tier and in shape
+	// "func" in the quick tier (budget).
+	fullLen, coreLen := 2, mc.Pick(r, 2, 3)
 	bodies := []progs.OwnHistory{{}}
-	bodies = append(bodies, progs.OwnHistories(maxLen, false)...)
+	bodies = append(bodies, progs.OwnSpace(fullLen, coreLen, 0, false)...)
 	if f := os.Getenv("C12_OPS"); f != "" { // debugging / mutant demonstration: restrict the alphabet
 		bodies = progs.OwnRestrict(bodies, f)
 		r.Cap("alphabet restricted by C12_OPS=" + f)
@@ -161,6 +179,9 @@ func main() {
 			continue
 		}
 		for _, sh := range progs.OwnLoopShapes {
+			if !r.Thorough() && !progs.OwnIsCore(h) && sh != "func" {
+				continue
+			}
 			items = append(items, progs.OwnLoopItem{H: h, Shape: sh})
 		}
 	}
@@ -171,7 +192,7 @@ func main() {
 	pool := mc.NewPool(mc.NWorkers(), nil)
 	defer pool.Close()
 	rcmon.InstallRetire(pool)
-	rn := &rcmon.Runner{Pool: pool, Poison: []bool{false}, Record: true, ClipOut: 400, PerProgram: itemsPerProgram, Expired: r.Expired,
+	rn := &rcmon.Runner{Pool: pool, Abort: true, Poison: []bool{false}, Record: true, ClipOut: 400, PerProgram: balanced(len(items), itemsPerProgram), Expired: r.Expired,
 		Render: func(idx []int) string {
 			sel := make([]progs.OwnLoopItem, len(idx))
 			for k, c := range idx {
@@ -263,7 +284,7 @@ func main() {
 	if rn.Capped == "" && (rn.NMalloc == 0 || rn.NFree == 0 || rn.NRetain == 0) {
 		r.HarnessError("vacuous: the monitor saw malloc=%d free=%d retain=%d release=%d", rn.NMalloc, rn.NFree, rn.NRetain, rn.NRelease)
 	}
-	if rn.Capped == "" && r.DistinctCount() < 10 {
+	if rn.Capped == "" && os.Getenv("C12_OPS") == "" && r.DistinctCount() < 10 {
 		r.HarnessError("vacuous: only %d distinct steady-state censuses", r.DistinctCount())
 	}
 	r.Finish()
